@@ -153,6 +153,10 @@ func (r *ReaderStream) ReassemblyComplete() {
 // slices.
 func (r *ReaderStream) stripEmpty() {
 	for len(r.current) > 0 && len(r.current[0].Bytes) == 0 {
+		if r.LossErrors && !r.lossReported && r.current[0].Skip != 0 {
+			// the gap in front of this (empty) slice still has to be reported
+			return
+		}
 		r.current = r.current[1:]
 		r.lossReported = false
 	}
